@@ -312,6 +312,56 @@ Definition ren1 (a b x : name) : name := if name_eqb x a then b else x.
 Definition col1 (T a b : name) (t c : name) : name := if name_eqb t T then ren1 a b c else c.
 Definition id_tab (t : name) : name := t.
 Definition id_col (t c : name) : name := c.
+(* the transposition a <-> b: what a rename a -> b amounts to when b is fresh *)
+Definition swap (a b x : name) : name := if name_eqb x a then b else if name_eqb x b then a else x.
+Definition colS (T a b : name) (t c : name) : name := if name_eqb t T then swap a b c else c.
+
+(* the (table, column) pairs a formula refers to, as the static inference resolves them, and the tables it names *)
+Fixpoint col_uses (d : doc) (self : name) (G : tenv) (e : expr) : list (name * name) :=
+  match e with
+  | EDollar c => [(self, c)]
+  | ECol e1 c => match infer d self G e1 with Some t => [(t, c)] | None => [] end ++ col_uses d self G e1
+  | EId e1 => col_uses d self G e1
+  | ELookup _ t ks ob => key_uses d self G t ks ++ map (fun p => (t, snd p)) ob
+  | EComp body x src => col_uses d self ((x, comp_type src) :: G) body ++ col_uses d self G src
+  | ECompIf body x src cond =>
+      col_uses d self ((x, comp_type src) :: G) body ++ col_uses d self G src
+      ++ col_uses d self ((x, comp_type src) :: G) cond
+  | EPrevNext _ e1 gb ob =>
+      match infer d self G e1 with
+      | Some t => map (fun c => (t, c)) gb ++ map (fun p => (t, snd p)) ob
+      | None => []
+      end ++ col_uses d self G e1
+  | EPrim1 _ e1 => col_uses d self G e1
+  | EPrim2 _ a b => col_uses d self G a ++ col_uses d self G b
+  | EIf c a b => col_uses d self G c ++ col_uses d self G a ++ col_uses d self G b
+  | _ => []
+  end
+with key_uses (d : doc) (self : name) (G : tenv) (t : name) (ks : keys) : list (name * name) :=
+  match ks with
+  | KNil => []
+  | KCons k e ks' => (t, k) :: col_uses d self G e ++ key_uses d self G t ks'
+  end.
+
+Fixpoint tab_uses (e : expr) : list name :=
+  match e with
+  | ECol e1 _ => tab_uses e1
+  | EId e1 => tab_uses e1
+  | ELookup _ t ks _ => t :: key_tab_uses ks
+  | EAll t => [t]
+  | EComp body _ src => tab_uses body ++ tab_uses src
+  | ECompIf body _ src cond => tab_uses body ++ tab_uses src ++ tab_uses cond
+  | EPrevNext _ e1 _ _ => tab_uses e1
+  | EPrim1 _ e1 => tab_uses e1
+  | EPrim2 _ a b => tab_uses a ++ tab_uses b
+  | EIf c a b => tab_uses c ++ tab_uses a ++ tab_uses b
+  | _ => []
+  end
+with key_tab_uses (ks : keys) : list name :=
+  match ks with
+  | KNil => []
+  | KCons _ e ks' => tab_uses e ++ key_tab_uses ks'
+  end.
 
 (* ---- evaluation -------------------------------------------------------------------------------- *)
 (* what `rec.c` gives for the stored / computed raw value v of a column of type ty *)
